@@ -664,4 +664,172 @@ theorem right_loop (S : Schema) {doc : Node} {b : Nat} {t : RPos} (ht : doc.reso
         rw [e]
         exact this
 
+/-! ### the gap goes between the two nests -/
+
+theorem fcut_prefix (pre post : List Node) (hn : fnorm (pre ++ post) = true) :
+    fcut (pre ++ post) 0 (fsize pre) = .ok pre := by
+  have hle : fsize pre ≤ fsize (pre ++ post) := by simp [fsize_append]
+  obtain ⟨c, hc⟩ := fcut_total (pre ++ post) 0 (fsize pre) (by omega) hle (alignedAt_zero _)
+    (alignedAt_boundary pre post) hn
+  have ht := fcut_prefix_toks hc hle (depthAt_boundary pre post)
+  rw [hc]
+  congr 1
+  apply ftoks_inj _ _ (fcut_norm _ _ _ _ hn hc) (fnorm_append_left hn)
+  rw [ht, ftoks_append, List.take_append_of_le_length (by simp [ftoks_length]),
+    List.take_of_length_le (by simp [ftoks_length])]
+
+theorem fcut_suffix (pre post : List Node) (hn : fnorm (pre ++ post) = true) :
+    fcut (pre ++ post) (fsize pre) (fsize (pre ++ post)) = .ok post := by
+  have hle : fsize pre ≤ fsize (pre ++ post) := by simp [fsize_append]
+  obtain ⟨c, hc⟩ := fcut_total (pre ++ post) (fsize pre) (fsize (pre ++ post)) hle (Nat.le_refl _)
+    (alignedAt_boundary pre post) (alignedAt_fsize _) hn
+  have ht := fcut_suffix_toks hc (depthAt_boundary pre post)
+  rw [hc]
+  congr 1
+  apply ftoks_inj _ _ (fcut_norm _ _ _ _ hn hc) (fnorm_append_right hn)
+  rw [ht, ftoks_append, List.drop_append, List.drop_of_length_le (by simp [ftoks_length])]
+  simp [ftoks_length]
+
+theorem insertInto_skip (S : Schema) (ins : List Node) (parent : Option TypeId) (level : List Node) (d0 : Nat) :
+    ∀ (pre rest : List Node) (idx oa ob : Nat), fnormKids pre = true →
+      insertInto S ins parent level d0 idx (pre ++ rest) (fsize pre) oa ob
+        = flatInsert S ins parent level d0 (idx + pre.length)
+  | [], rest, idx, oa, ob, _ => by
+    cases rest with
+    | nil => simp [insertInto]
+    | cons r rs => unfold insertInto; simp
+  | p :: ps, rest, idx, oa, ob, hn => by
+    simp only [fnormKids_cons, Bool.and_eq_true] at hn
+    have hpos := Node.size_pos_of_norm p hn.1
+    rw [List.cons_append]
+    unfold insertInto
+    rw [if_neg (by simp; omega), if_pos (by simp)]
+    have e : fsize (p :: ps) - p.size = fsize ps := by simp
+    rw [e, insertInto_skip S ins parent level d0 ps rest (idx + 1) oa ob hn.2]
+    congr 1
+    simp; omega
+
+theorem addNode_elem (X : List Node) (ty : TypeId) (a : Attrs) (m : Marks) (k : List Node) :
+    addNode X (.elem ty a m k) = X ++ [.elem ty a m k] := by
+  unfold addNode
+  split <;> simp_all
+
+/-- a nest of at most one element node: nothing, or an element node in normal form -/
+def IsCopy (l : List Node) : Prop := l = [] ∨ ∃ ty a m W, l = [Node.elem ty a m W] ∧ fnorm W = true
+
+theorem fappend_copies {lc rc : List Node} (mid : List Node) (hl : IsCopy lc) (hr : IsCopy rc) :
+    fappend lc rc = lc ++ rc ∧ fappend (fappend lc mid) rc = lc ++ mid ++ rc := by
+  have h1 : ∀ X : List Node, fappend X rc = X ++ rc := by
+    intro X
+    rcases hr with rfl | ⟨ty, a, m, W, rfl, _⟩
+    · simp [fappend]
+    · cases X with
+      | nil => simp [fappend]
+      | cons x xs => simp [fappend, addNode_elem]
+  have h2 : fappend lc mid = lc ++ mid := by
+    rcases hl with rfl | ⟨ty, a, m, W, rfl, _⟩
+    · cases mid <;> simp [fappend]
+    · cases mid with
+      | nil => simp [fappend]
+      | cons c cs => simp [fappend, addNode]
+  exact ⟨h1 lc, by rw [h2, h1]⟩
+
+theorem fnorm_copies {lc rc : List Node} (hl : IsCopy lc) (hr : IsCopy rc) : fnorm (lc ++ rc) = true := by
+  rcases hl with rfl | ⟨ty, a, m, W, rfl, hW⟩
+  · rcases hr with rfl | ⟨ty', a', m', W', rfl, hW'⟩
+    · rfl
+    · simp only [fnorm, Bool.and_eq_true] at hW'
+      simp [fnorm, fnormKids, chainOk, Node.norm_elem, hW'.1, hW'.2]
+  · simp only [fnorm, Bool.and_eq_true] at hW
+    rcases hr with rfl | ⟨ty', a', m', W', rfl, hW'⟩
+    · simp [fnorm, fnormKids, chainOk, Node.norm_elem, hW.1, hW.2]
+    · simp only [fnorm, Bool.and_eq_true] at hW'
+      simp [fnorm, fnormKids, chainOk, adjOk, Node.norm_elem, hW.1, hW.2, hW'.1, hW'.2]
+
+/-- **`Slice(before ++ after, oS, oE).insert_at(|before| - oS, gap)`**: the gap's content goes between the two nests -/
+theorem insertAt_lift (S : Schema) {lc rc : List Node} (mid : List Node) (a b : Nat) (hl : IsCopy lc)
+    (hr : IsCopy rc) (ha : a ≤ fsize lc) :
+    Slice.insertAt S ⟨fappend lc rc, a, b⟩ (fsize lc - a) mid = .ok (some ⟨lc ++ mid ++ rc, a, b⟩) := by
+  obtain ⟨e1, e2⟩ := fappend_copies mid hl hr
+  have hn := fnorm_copies hl hr
+  unfold Slice.insertAt
+  simp only [e1, show fsize lc - a + a = fsize lc by omega]
+  have := insertInto_skip S mid none (lc ++ rc) (fsize lc) lc rc 0 a b
+    (fnormKids_of_fnorm (fnorm_append_left hn))
+  rw [this]
+  simp only [flatInsert, fcut_prefix lc rc hn, fcut_suffix lc rc hn, e2]
+
+/-! ### the payload of the step is valid -/
+
+theorem CutL.openValid {S : Schema} {ty : TypeId} {L W XL : List Node} {p : Nat} (h : CutL S ty L p W XL)
+    (hv : S.checkKids L = true) :
+    leftOpenValid S (spineL W) W = true ∧ rightOpenValid S (spineL W) W = true := by
+  induction h with
+  | edge _ => simp [spineL, leftOpenValid, rightOpenValid]
+  | @deep ty tyC a m pre post kC W XL p _ _ ih =>
+    rw [checkKids_append, checkKids_cons, checkNode_elem] at hv
+    simp only [Bool.and_eq_true] at hv
+    obtain ⟨i1, i2⟩ := ih hv.2.1.2
+    rw [show spineL [Node.elem tyC a m W] = spineL W + 1 by simp [spineL]; omega]
+    simp [leftOpenValid, rightOpenValid, hv.2.1.1.2, i1, i2]
+
+theorem CutR.openValid {S : Schema} {ty : TypeId} {L W XR : List Node} {p : Nat} (h : CutR S ty L p W XR)
+    (hv : S.checkKids L = true) :
+    leftOpenValid S (spineL W) W = true ∧ rightOpenValid S (spineL W) W = true := by
+  induction h with
+  | edge _ => simp [spineL, leftOpenValid, rightOpenValid]
+  | @deep ty tyC a m pre post kC W XR p _ _ ih =>
+    rw [checkKids_append, checkKids_cons, checkNode_elem] at hv
+    simp only [Bool.and_eq_true] at hv
+    obtain ⟨i1, i2⟩ := ih hv.2.1.2
+    rw [show spineL [Node.elem tyC a m W] = spineL W + 1 by simp [spineL]; omega]
+    simp [leftOpenValid, rightOpenValid, hv.2.1.1.2, i1, i2]
+
+theorem rightOpenValid_append (S : Schema) (b : Nat) (y : Node) : ∀ (mid : List Node), S.checkKids mid = true →
+    rightOpenValid S (b + 1) [y] = true → rightOpenValid S (b + 1) (mid ++ [y]) = true
+  | [], _, h => h
+  | n :: rest, hv, h => by
+    rw [checkKids_cons, Bool.and_eq_true] at hv
+    have ih := rightOpenValid_append S b y rest hv.2 h
+    cases hr : rest ++ [y] with
+    | nil => simp at hr
+    | cons n' rest' =>
+      rw [List.cons_append, hr, rightOpenValid, hv.1, ← hr]
+      simpa using ih
+
+/-- the slice with the gap's content in place is a valid payload -/
+theorem lift_payload (S : Schema) {tyN : TypeId} {aN : Attrs} {mN : Marks} {kN mid : List Node}
+    {fN a tN b : Nat} {lc lp rc rp : List Node}
+    (hL : LeftSide S tyN aN mN kN fN lc a lp) (hR : RightSide S tyN aN mN kN tN rc b rp)
+    (hvN : S.checkNode (.elem tyN aN mN kN) = true) (hvm : S.checkKids mid = true) :
+    openValid S a b (lc ++ mid ++ rc) = true := by
+  rw [checkNode_elem] at hvN
+  simp only [Bool.and_eq_true] at hvN
+  obtain ⟨⟨_, hm⟩, hk⟩ := hvN
+  cases hL with
+  | whole =>
+    cases hR with
+    | whole => simpa [openValid, rightOpenValid] using hvm
+    | @cut p W XR hc =>
+      obtain ⟨_, i2⟩ := hc.openValid hk
+      rw [Nat.add_comm 1]
+      simp only [openValid, List.nil_append]
+      exact rightOpenValid_append S _ _ mid hvm (by simp [rightOpenValid, hm, i2])
+  | @cut p W XL hc =>
+    obtain ⟨i1, _⟩ := hc.openValid hk
+    cases hR with
+    | whole =>
+      rw [Nat.add_comm 1]
+      simp [openValid, leftOpenValid, hm, i1, hvm]
+    | @cut p2 W2 XR hc2 =>
+      obtain ⟨_, j2⟩ := hc2.openValid hk
+      have hr := rightOpenValid_append S (spineL W2) (.elem tyN aN mN W2) mid hvm
+        (by simp [rightOpenValid, hm, j2])
+      rw [Nat.add_comm 1, Nat.add_comm 1]
+      cases hmr : mid ++ [Node.elem tyN aN mN W2] with
+      | nil => simp at hmr
+      | cons n rest =>
+        rw [hmr] at hr
+        simp only [List.cons_append, List.nil_append, List.append_assoc, hmr, openValid, hm, i1, hr, Bool.and_self]
+
 end PM
